@@ -54,13 +54,21 @@ class BehavioralRTLIRGeneratorL2( BehavioralRTLIRGeneratorL1 ):
 
   # Override
   def get_blocking( s, node, bir_node ):
+    # A write to a part of a temporary variable ( t[0:4] = ..., t[i] = ...,
+    # t.field = ... ) is a write to the temporary: it takes effect at once,
+    # also inside an update_ff block.
+    def _is_tmpvar( target ):
+      while isinstance( target, ( bir.Slice, bir.Index, bir.Attribute ) ):
+        target = target.value
+      return isinstance( target, bir.TmpVar )
+
     if len(bir_node.targets) == 1:
-      if isinstance(bir_node.targets[0], bir.TmpVar):
+      if _is_tmpvar(bir_node.targets[0]):
         return True
       return s._upblk_type is bir.CombUpblk
 
-    has_tmpvar = any(isinstance(n, bir.TmpVar) for n in bir_node.targets)
-    all_tmpvar = all(isinstance(n, bir.TmpVar) for n in bir_node.targets)
+    has_tmpvar = any(_is_tmpvar(n) for n in bir_node.targets)
+    all_tmpvar = all(_is_tmpvar(n) for n in bir_node.targets)
     if has_tmpvar and not all_tmpvar:
       raise PyMTLSyntaxError( s.blk, node,
         'all targets have to be tmpvars if any target on LHS is a tmpvar!' )
